@@ -76,13 +76,29 @@ class BuildError(Exception):
     pass
 
 
-REPLAY_DIR = os.path.join(VERIF, 'replay')
+def crate_dir(name):
+    """harness crate directory; when the checks are pointed at another checkout (VERIF_REPO, used to test
+    seeded changes side by side) a private copy with the path dependency rewritten"""
+    src = os.path.join(VERIF, name)
+    if REPO == '/repo':
+        return src
+    dst = os.path.join(SCRATCH, name + '-src')
+    if os.path.isdir(dst):
+        shutil.rmtree(dst)
+    shutil.copytree(src, dst, ignore=shutil.ignore_patterns('target', 'Cargo.lock'))
+    t = open(os.path.join(dst, 'Cargo.toml')).read().replace('"/repo/', '"%s/' % REPO)
+    open(os.path.join(dst, 'Cargo.toml'), 'w').write(t)
+    return dst
+
+
+OUT = os.environ.get('VERIF_OUT', VERIF)
 
 
 def build_replay(profile='dev'):
     """build the native replay harness against /repo's current tree; returns path of the binary"""
     tgt = os.path.join(SCRATCH, 'replay-target')
     with Lock('replay-' + profile):
+        REPLAY_DIR = crate_dir('replay')
         shutil.copyfile(os.path.join(REPO, 'Cargo.lock'), os.path.join(REPLAY_DIR, 'Cargo.lock'))
         cmd = ['cargo', 'build', '--offline', '--quiet']
         if profile == 'release':
@@ -234,16 +250,16 @@ class Check:
             'violations': len(viol),
         }
         ev['coverage'].update(self.extra)
-        os.makedirs(os.path.join(VERIF, 'evidence'), exist_ok=True)
-        with open(os.path.join(VERIF, 'evidence', self.pid + '.json'), 'w') as f:
+        os.makedirs(os.path.join(OUT, 'evidence'), exist_ok=True)
+        with open(os.path.join(OUT, 'evidence', self.pid + '.json'), 'w') as f:
             json.dump(ev, f, indent=1, default=str)
         for o in self.obligations:
             print('%-12s %-28s %s%s' % (o.status.upper(), o.name, (o.detail or '')[:160],
                                         '' if not o.wall_s else '  [%.1fs]' % o.wall_s))
         if viol:
-            os.makedirs(os.path.join(VERIF, 'replays'), exist_ok=True)
+            os.makedirs(os.path.join(OUT, 'replays'), exist_ok=True)
             for i, o in enumerate(viol):
-                p = os.path.join(VERIF, 'replays', '%s-%s.json' % (self.pid, re.sub(r'[^A-Za-z0-9_.-]', '_', o.name)))
+                p = os.path.join(OUT, 'replays', '%s-%s.json' % (self.pid, re.sub(r'[^A-Za-z0-9_.-]', '_', o.name)))
                 with open(p, 'w') as f:
                     json.dump({'property': self.pid, 'obligation': o.name, 'what': o.desc, 'key': o.key,
                                'counterexample': o.cex, 'native': o.replayed}, f, indent=1, default=str)
